@@ -1207,6 +1207,73 @@ func r14_2(c *Ctx, rule string) {
 			return isP && c.P.ParamName(p) == "srcRoot"
 		}, 6)
 	}
+	// ... on every alternative: a value that is a root resolution on one
+	// branch and a plain Join(srcRoot, src) on another (a short-cut for
+	// sources "already resolved") is not confined
+	isSrcResolution := func(y ssa.Value) bool {
+		if e, isE := y.(*ssa.Extract); isE {
+			y = e.Tuple
+		}
+		call, ok := y.(*ssa.Call)
+		if !ok || c.P.CalleeName(call) != "copy.rootPath" {
+			return false
+		}
+		p, isP := eng.Strip(call.Call.Args[0]).(*ssa.Parameter)
+		return isP && c.P.ParamName(p) == "srcRoot"
+	}
+	var onlySrcRoot func(v ssa.Value, d int, seen map[ssa.Value]bool) bool
+	onlySrcRoot = func(v ssa.Value, d int, seen map[ssa.Value]bool) bool {
+		if d > 8 || v == nil {
+			return false
+		}
+		if seen[v] {
+			return true
+		}
+		seen[v] = true
+		if isSrcResolution(v) {
+			return true
+		}
+		if rs := eng.ResolveAll(v); len(rs) > 1 || (len(rs) == 1 && rs[0] != v) {
+			for _, r := range rs {
+				if !onlySrcRoot(r, d+1, seen) {
+					return false
+				}
+			}
+			return true
+		}
+		switch x := v.(type) {
+		case *ssa.Phi:
+			for _, e := range x.Edges {
+				if !onlySrcRoot(e, d+1, seen) {
+					return false
+				}
+			}
+			return len(x.Edges) > 0
+		case *ssa.UnOp:
+			// a local assigned on several branches
+			if al, isA := x.X.(*ssa.Alloc); isA && x.Op == token.MUL {
+				sts := c.P.AllocStores(al)
+				for _, st := range sts {
+					if !onlySrcRoot(st.Val, d+1, seen) {
+						return false
+					}
+				}
+				return len(sts) > 0
+			}
+		case *ssa.ChangeType:
+			return onlySrcRoot(x.X, d+1, seen)
+		case *ssa.Convert:
+			return onlySrcRoot(x.X, d+1, seen)
+		}
+		return false
+	}
+	for _, call := range c.P.CallsTo(cp, "copy.(*copier).prepareTargetDir", "copy.(*copier).copy") {
+		idx := 1
+		if c.P.CalleeName(call) == "copy.(*copier).copy" {
+			idx = 2
+		}
+		c.R.Check(onlySrcRoot(call.Common().Args[idx], 0, map[ssa.Value]bool{}), rule, c.siteName(call)+"/source-always-resolved", c.pos(call), "on every alternative the source path is what rootPath(srcRoot, ...) returned", "on some branch the source path handed on is not the result of rootPath(srcRoot, ...) (a plain Join with the root?): a symlinked parent component of the source is followed against the host's root")
+	}
 	for _, call := range c.P.CallsTo(cp, "copy.MkdirAll") {
 		c.R.Check(fromDstRoot(call.Common().Args[0]), rule, c.siteName(call)+"/root-scoped", c.pos(call), "the directory to ensure is resolved below dstRoot", "MkdirAll is given a path that was not resolved with fs.RootPath(dstRoot, ...)")
 		c.ObErrChecked(rule+"/checked", call)
